@@ -619,6 +619,11 @@ class Node:
             if deep is None:
                 deep = True
             topnodes = list(child._root.children)  # copy: don't reorder the source
+            # Check all topnodes first, so a refused call does not add a part
+            own_ids = {c._data_id for c in self._children or ()}
+            for n in topnodes:
+                if n._data_id in own_ids:
+                    raise UniqueConstraintError(f"Node.data already exists in parent: {n}")
             if isinstance(before, (int, Node)) or before is True:
                 topnodes.reverse()
             n = None  # source tree may be empty
